@@ -213,8 +213,6 @@ theorem standardOp_opReqs (env : Env) (sg : Subgraph) (qsvs : Qsvs) (oi : OpInfo
     (hin : SlotsValid sg oi.op.inputs) (hout : SlotsValid sg oi.op.outputs)
     (hnb : NoBlockwise oi.cfg)
     (houtNC : ∀ a ∈ oi.op.outputs, a ≠ -1 → isConst env.model sg a = false)
-    (hinNC : con = .sameAsInput → ∀ (i : Nat) a, oi.op.inputs[i]? = some a → a ≠ -1 → i ∉ gIn →
-      isConst env.model sg a = false)
     (hrole : ∀ (i j : Nat) a, oi.op.inputs[i]? = some a → oi.op.inputs[j]? = some a → a ≠ -1 →
       (i ∈ gIn ↔ j ∈ gIn))
     (h : standardOp env sg qsvs oi con gIn gOut = .ok (rs, qs')) :
@@ -244,25 +242,12 @@ theorem standardOp_opReqs (env : Env) (sg : Subgraph) (qsvs : Qsvs) (oi : OpInfo
       | none => rw [hpr] at hq; cases hq
       | some pr => rw [hpr] at hq; exact this pr q hpr hq
   have hgOd : ∀ q, gO = some q → hasData q = false := by
-    rcases hgO with rfl | ⟨hcon, p, hp, t, ir, hign, ht, hw, hpar⟩
+    rcases hgO with rfl | ⟨_, p, _, t, ir, p0, _, _, hw, hpar, rfl⟩
     · intro q hq; cases hq
-    · obtain ⟨hp1, hp2⟩ := (mem_cslots _ _).1 hp
-      have hmem : p.1 ∈ oi.op.inputs := List.mem_of_getElem? hp1
-      have hval : ValidT sg p.1 := by
-        rcases hin _ hmem with h | h
-        · exact absurd h hp2
-        · exact h
-      obtain ⟨h1, h2⟩ := tensorAt_valid sg p.1 t hval ht
-      have hng : p.2 ∉ gIn := by
-        intro hmemg
-        have := (hI p.2 p.1 t hp1 ht).2 (.inr hmemg)
-        rw [hign] at this; cases this
-      have hnc := hinNC hcon p.2 p.1 hp1 hp2 hng
-      rw [← h2] at hnc
-      have := (wrapper_param_nodata env sg qsvs oi _ t true ir h1 hnc hw).2
-      obtain ⟨cs, c, hcs, hc, rfl⟩ := reqParam0_mem ir gO hpar
-      intro q hq
-      exact this cs c q hcs hc hq
+    · -- the operand's parameters are uniform (or absent), and `standardOp` strips their data; this
+      -- holds whether or not the operand is a constant
+      obtain ⟨cs, c, hcs, hc, rfl⟩ := reqParam0_mem ir p0 hpar
+      exact stripData_nodata _ (fun q hq => (wrapper_none_uniform env qsvs oi t true ir hw).2 cs c q hcs hc hq)
   -- result requests
   have hOut : ∀ r ∈ rout, ∃ (i : Nat) (t : Tensor), sg.tensors[i]? = some t ∧ r.name = t.name ∧
       r.consumers = none ∧ ∃ p, r.producer = some p ∧ p.opId = oi.opId ∧ (i : Int) ∈ oi.op.outputs ∧
@@ -402,7 +387,7 @@ theorem fixedRangeOp_reqs (env : Env) (sg : Subgraph) (qsvs : Qsvs) (oi : OpInfo
     · rename_i v hstd
       obtain ⟨reqs, qs⟩ := v
       have hR := (standardOp_opReqs env sg qsvs oi .none [] [] reqs qs hnames hin hout hnb houtNC
-        (fun hc => by cases hc) (fun i j a _ _ _ => by simp) hstd).1
+        (fun i j a _ _ _ => by simp) hstd).1
       simp only [] at h
       split at h
       · rename_i last a hlast hact
